@@ -98,6 +98,7 @@ type VerifSnap struct {
 	Pairs       []VerifPair `json:"pairs"`
 	Pend        []VerifTxn  `json:"pend"`
 	Sel         uint64      `json:"sel"`
+	SelListed   bool        `json:"selListed"` // the selected pair is (the same object as) an entry of the checklist
 	NomPair     uint64      `json:"nomPair"`
 	LastNom     uint32      `json:"lastNom"`
 	NextPairID  uint64      `json:"nextPairId"`
@@ -177,6 +178,11 @@ func (a *Agent) VerifSnapshot() (s VerifSnap) { //nolint:cyclop
 		}
 		if sp := a.getSelectedPair(); sp != nil {
 			s.Sel = sp.id
+			for _, p := range a.checklist {
+				if p == sp {
+					s.SelListed = true
+				}
+			}
 		}
 		sel := a.getSelector()
 		if ls, ok := sel.(*liteSelector); ok {
